@@ -307,9 +307,17 @@ def congruence_comparer(comparer_params_eval, student_eval, utils):
     """
     expected, modulus = comparer_params_eval
 
+    # A real value can still be typed complex (e.g., 4+0*i), which cannot be reduced
+    if np.isreal(student_eval):
+        student_eval = np.real(student_eval)
+
     expected_reduced = expected % modulus
     input_reduced = student_eval % modulus
-    return utils.within_tolerance(expected_reduced, input_reduced)
+    # Values just below the modulus are congruent to values just above zero,
+    # so also compare one period up and down
+    return (utils.within_tolerance(expected_reduced, input_reduced) or
+            utils.within_tolerance(expected_reduced, input_reduced - modulus) or
+            utils.within_tolerance(expected_reduced, input_reduced + modulus))
 
 def eigenvector_comparer(comparer_params_eval, student_eval, utils):
     """
